@@ -80,4 +80,6 @@ Extraction "model.ml"
   missing_nodes
   output
   check_values
+  run_logged
+  run_logged_dm
 .
